@@ -1,3 +1,99 @@
-Require Import Codec.
-Theorem placeholder : True. Proof. exact I. Qed.
-Print Assumptions placeholder.
+(* C01 - write then read returns the same pose, or the write fails loudly.
+   Only statements, closed by [exact], each followed by Print Assumptions. *)
+From Coq Require Import ZArith NArith List String.
+Require Import ListN Result Bytes Prog Codec PoseRead CodecRT PoseReadLemmas CodecGenTie C01_Examples.
+Import ListNotations.
+Open Scope N_scope.
+
+(* For EVERY pose handed to Pose.write (arbitrary integers, code points, shapes, binary64 values): if the
+   writer accepts it, then Pose.read of the bytes - under every consistent state of the process-global
+   header memo and whatever legacy decoders are plugged in - returns exactly [canon p]: the header field by
+   field, fps / coordinates / confidences converted to float32 words, missing iff confidence is +-0.
+   [wf_arrays] (an ndarray has as many cells as its shape says) and "at least one coordinate dimension"
+   are the property's own quantifier, not restrictions of the proof. *)
+Theorem C01_write_read_roundtrip :
+  forall legacy (m : option memo) (p : wpose) (bs : bytes),
+    MemoOK m -> write_pose p = Ok bs -> wf_arrays p -> 1 <= nth 3 (w_shape p) 0 ->
+    fst (read_bytes legacy m bs no_args) = Ok (canon p).
+Proof. exact read_bytes_written. Qed.
+Print Assumptions C01_write_read_roundtrip.
+
+(* the memo states over which the theorem quantifies are exactly the reachable ones *)
+Theorem C01_memo_initially_ok : MemoOK None.
+Proof. exact I. Qed.
+Print Assumptions C01_memo_initially_ok.
+Theorem C01_memo_ok_preserved :
+  forall legacy m buffer a, MemoOK m -> MemoOK (snd (read_bytes legacy m buffer a)).
+Proof. exact read_bytes_memo_ok. Qed.
+Print Assumptions C01_memo_ok_preserved.
+
+(* non-vacuity *)
+Theorem C01_example_accepted : exists bs, write_pose ex_pose = Ok bs /\ lenN bs = 148.
+Proof. exact ex_pose_written. Qed.
+Print Assumptions C01_example_accepted.
+Theorem C01_example_hypotheses : wf_arrays ex_pose /\ 1 <= nth 3 (w_shape ex_pose) 0.
+Proof. exact ex_pose_wf. Qed.
+Print Assumptions C01_example_hypotheses.
+Theorem C01_example_empty_accepted : exists bs, write_pose ex_empty = Ok bs.
+Proof. exact ex_empty_written. Qed.
+Print Assumptions C01_example_empty_accepted.
+Theorem C01_example_memo : exists m, m <> None /\ MemoOK m.
+Proof. exact ex_memo_ok. Qed.
+Print Assumptions C01_example_memo.
+
+(* ties to the current source: coq/gen/Gen_Codec.v is regenerated from /repo on every run; the expected values
+   (the exp_ constants of proofs/CodecGenTie.v) are the literals the model was transcribed from *)
+Theorem C01_tie_struct_table : Gen_Codec.struct_table = exp_struct_table.
+Proof. exact struct_table_tie. Qed.
+Print Assumptions C01_tie_struct_table.
+Theorem C01_tie_version_literal : Gen_Codec.version_literal = exp_version_literal.
+Proof. exact version_literal_tie. Qed.
+Print Assumptions C01_tie_version_literal.
+Theorem C01_tie_write_str_kind : Gen_Codec.write_str_kind = exp_write_str_kind.
+Proof. exact write_str_kind_tie. Qed.
+Print Assumptions C01_tie_write_str_kind.
+Theorem C01_tie_component_write : Gen_Codec.component_write = exp_component_write.
+Proof. exact component_write_tie. Qed.
+Print Assumptions C01_tie_component_write.
+Theorem C01_tie_dimensions_write : Gen_Codec.dimensions_write = exp_dimensions_write.
+Proof. exact dimensions_write_tie. Qed.
+Print Assumptions C01_tie_dimensions_write.
+Theorem C01_tie_header_write : Gen_Codec.header_write = exp_header_write.
+Proof. exact header_write_tie. Qed.
+Print Assumptions C01_tie_header_write.
+Theorem C01_tie_component_read : Gen_Codec.component_read = exp_component_read.
+Proof. exact component_read_tie. Qed.
+Print Assumptions C01_tie_component_read.
+Theorem C01_tie_dimensions_read : Gen_Codec.dimensions_read = exp_dimensions_read.
+Proof. exact dimensions_read_tie. Qed.
+Print Assumptions C01_tie_dimensions_read.
+Theorem C01_tie_dimensions_init : Gen_Codec.dimensions_init = exp_dimensions_init.
+Proof. exact dimensions_init_tie. Qed.
+Print Assumptions C01_tie_dimensions_init.
+Theorem C01_tie_header_read : Gen_Codec.header_read = exp_header_read.
+Proof. exact header_read_tie. Qed.
+Print Assumptions C01_tie_header_read.
+Theorem C01_tie_header_num_dims : Gen_Codec.header_num_dims = exp_header_num_dims.
+Proof. exact header_num_dims_tie. Qed.
+Print Assumptions C01_tie_header_num_dims.
+Theorem C01_tie_header_total_points : Gen_Codec.header_total_points = exp_header_total_points.
+Proof. exact header_total_points_tie. Qed.
+Print Assumptions C01_tie_header_total_points.
+Theorem C01_tie_body_write : Gen_Codec.body_write = exp_body_write.
+Proof. exact body_write_tie. Qed.
+Print Assumptions C01_tie_body_write.
+Theorem C01_tie_numpy_body_init : Gen_Codec.numpy_body_init = exp_numpy_body_init.
+Proof. exact numpy_body_init_tie. Qed.
+Print Assumptions C01_tie_numpy_body_init.
+Theorem C01_tie_body_read_dispatch : Gen_Codec.body_read_dispatch = exp_body_read_dispatch.
+Proof. exact body_read_dispatch_tie. Qed.
+Print Assumptions C01_tie_body_read_dispatch.
+Theorem C01_tie_body_read_v0_2 : Gen_Codec.body_read_v0_2 = exp_body_read_v0_2.
+Proof. exact body_read_v0_2_tie. Qed.
+Print Assumptions C01_tie_body_read_v0_2.
+Theorem C01_tie_body_read_frames : Gen_Codec.body_read_frames = exp_body_read_frames.
+Proof. exact body_read_frames_tie. Qed.
+Print Assumptions C01_tie_body_read_frames.
+Theorem C01_tie_pose_write : Gen_Codec.pose_write = exp_pose_write.
+Proof. exact pose_write_tie. Qed.
+Print Assumptions C01_tie_pose_write.
